@@ -57,11 +57,14 @@ def dispatch (fn : String) (args : List (List Int)) : String :=
   | "Fam.stars", (a0 :: _) :: [] => showRes (Cv.PyGen.Fam.stars a0)
   | "Fam.generalized_stars", (a0 :: _) :: (a1 :: _) :: [] => showRes (Cv.PyGen.Fam.generalized_stars a0 a1)
   | "Fam.rapaport_m1", (a0 :: _) :: [] => showRes (Cv.PyGen.Fam.rapaport_m1 a0)
+  | "Fam.rapaport_m2", (a0 :: _) :: [] => showRes (Cv.PyGen.Fam.rapaport_m2 a0)
   | "Fam.all_cycles", (a0 :: _) :: [] => showRes (Cv.PyGen.Fam.all_cycles a0)
   | "Fam.lsl_cycles", (a0 :: _) :: (a1 :: _) :: [] => showRes (Cv.PyGen.Fam.lsl_cycles a0 (a1 != 0))
   | "Fam.wrapped_k_cycles", (a0 :: _) :: (a1 :: _) :: [] => showRes (Cv.PyGen.Fam.wrapped_k_cycles a0 a1)
   | "Fam.larx", (a0 :: _) :: [] => showRes (Cv.PyGen.Fam.larx a0)
   | "Fam.increasing_k_cycles", (a0 :: _) :: (a1 :: _) :: [] => showRes (Cv.PyGen.Fam.increasing_k_cycles a0 a1)
+  | "Fam.sheveleva2", (a0 :: _) :: (a1 :: _) :: [] => showRes (Cv.PyGen.Fam.sheveleva2 a0 a1)
+  | "Fam.koltsov3", (a0 :: _) :: (a1 :: _) :: (a2 :: _) :: (a3 :: _) :: [] => showRes (Cv.PyGen.Fam.koltsov3 a0 a1 a2 a3)
   | "Fam.consecutive_k_cycles", (a0 :: _) :: (a1 :: _) :: [] => showRes (Cv.PyGen.Fam.consecutive_k_cycles a0 a1)
   | "Fam.down_cycles", (a0 :: _) :: [] => showRes (Cv.PyGen.Fam.down_cycles a0)
   | "Fam.prefix_cycles", (a0 :: _) :: [] => showRes (Cv.PyGen.Fam.prefix_cycles a0)
